@@ -149,11 +149,18 @@ def rule_randtoken(ctx):
         ends = [e for e in w.events if e.kind in ("ret", "loopend")]
         results = {}
         for end in ends:
+            carried = None          # the local that carries the pointer through this loop, when it is not the token's own name
             if end.loops:
                 lp = end.loops[-1]
                 hv = get_env_tok(lp.head_env) if not is_method else lp.head_env.get("@" + tokname)
                 if is_method and hv is None:
                     hv = Num(entry_lin)
+                if not is_method:
+                    inner0 = [x for x in w.events if x.kind == "call" and x.callee is not None and x.callee.key in toks and lp in x.loops
+                              and not getattr(x, "inlined", False)]
+                    alt = _carried_var(w, lp, inner0, toks) if inner0 else None
+                    if alt is not None and alt != tokname and isinstance(lp.head_env.get(alt), Num):
+                        carried, hv = alt, lp.head_env[alt]
                 cur = hv.lin if isinstance(hv, Num) else None
             else:
                 cur = entry_lin
@@ -195,10 +202,13 @@ def rule_randtoken(ctx):
                             bad = (ev, "the pointer held when entering the loop is not the latest one returned: the result of a call was dropped")
                             break
                     hv = get_env_tok(lp2.head_env) if not is_method else lp2.head_env.get("@" + tokname)
+                    alt2 = _carried_var(w, lp2, inner, toks) if not is_method else None
+                    if alt2 is not None and alt2 != tokname and isinstance(lp2.head_env.get(alt2), Num):
+                        hv = lp2.head_env[alt2]          # the loop carries the pointer in that local: after the loop it holds the latest one
                     if isinstance(hv, Num):
                         cur = hv.lin
             if bad is None:
-                tv = get_env_tok(end.env)
+                tv = get_env_tok(end.env) if carried is None else end.env.get(carried)
                 if end.kind == "ret" and not is_method:
                     tv = Num(cur)         # a kernel hands the pointer on through its return value (checked next), whatever the local is called
                 if not isinstance(tv, Num) or tv.lin != cur:
@@ -426,6 +436,13 @@ def rule_expo(ctx):
         shapes += [nf(expand_expr(ctx.model, c2v, r.value)) for r in rets]      # temporaries resolved
     except (AnalysisError, RecursionError):
         pass
+    # ... and the value returned on each syntactic path (`d = float64(counter); if nr < counter: d = <geometric>; return d`)
+    from .model import path_returns
+    for e_ in path_returns(c2v.node) or []:
+        try:
+            shapes.append(nf(e_))
+        except (AnalysisError, RecursionError, TypeError, ValueError):
+            pass
     cp = None
     for n in walk_no_nested(c2v.node):
         if isinstance(n, ast.Assign) and isinstance(n.targets[0], ast.Name) and nf(n.value) == parse_nf("counter - num_reserved"):
@@ -540,7 +557,8 @@ def rule_logmerge_shape(ctx, rounding=True):
         lows = [e for e in stores if isinstance(e.value, Num) and any(t[0] == "trunc" for t in e.value.lin.terms()) and e.value.lin.single_term() is None]
         ups = {}
         for e in lows:
-            ups.setdefault(id(e.node), e)
+            # one store statement per candidate -- or a single `cms[r, c] = clower + offset` reached with offset 0 on one path and 1 on another
+            ups.setdefault((id(e.node), e.value.lin.key()), e)
         re_stores = list(ups.values())
         if len(re_stores) != 2:
             ctx.ob("logmerge-shape", k, k.node, "%s: re-encode stores" % k.name, "re-encoding chooses between two adjacent counters", False,
